@@ -11,7 +11,46 @@ def plain(entry):
     return entry not in ("", ".", "..") and "/" not in entry
 
 
+STD = {"root.json", "timestamp.json", "snapshot.json", "targets.json", "latest_known_time.json"}
+
+
+def role_entries(entries, prefix):
+    """entries of a listing / URL list that are not the four top-level documents: the delegated role's own"""
+    out = set()
+    for e in entries:
+        if not e.startswith(prefix) or e.endswith("/"):
+            continue
+        f = e[len(prefix):]
+        base = f.split(".", 1)[1] if f.split(".", 1)[0].isdigit() and "." in f else f
+        if base not in STD and f not in STD:
+            out.add(f)
+    return out
+
+
+def places(r):
+    """(place, consistent) -> files the role of this row maps to there"""
+    out = {}
+    for full in r.get("full", []):
+        c = full["consistent"]
+        out[("URL requested by load", c)] = role_entries(full["urls"], BASE)
+        out[("datastore file", c)] = role_entries(full["ds"], "datastore/")
+        out[("file written by cache", c)] = role_entries(full["cache_list"], "md/")
+        out[("URL requested by cache", c)] = role_entries(full["cache_urls"], BASE)
+    for ed in r.get("editor", []):
+        out[("file written by the editor", ed["consistent"])] = role_entries(ed["list"], "metadata/")
+    return out
+
+
 def judge(v, rows, stats):
+    owner = {}
+    for r in rows:
+        if "collisions" in r:
+            continue
+        for place, files in places(r).items():
+            for f in files:
+                prev = owner.setdefault((place, f), r["in"]["name"])
+                if prev != r["in"]["name"]:
+                    v.violation(f"two role names map to the same {place[0]} (consistent_snapshot={place[1]}): {f!r} for {prev!r} and {r['in']['name']!r}", r)
     for r in rows:
         if "collisions" in r:
             for c in r["collisions"]:
@@ -79,6 +118,17 @@ def run(tier, seed):
     for _ in range(400 if tier == "quick" else 5000):
         s = "".join(rnd.choice(alphabet) for _ in range(rnd.randint(3, 30)))[:64]
         cases.append({"name": s, "file": None})
+    # names and percent-encoded spellings of them (and of those), through every path
+    def enc(x, lower=False):
+        o = "".join(ch if (ch.isascii() and (ch.isalnum() or ch in "_.~-")) else "".join(("%%%02x" if lower else "%%%02X") % b for b in ch.encode()) for ch in x)
+        return o
+    specials = []
+    for x in ["a/b", "..", "../x", "a b", "%", "@", "a%b", "%C3%A9", ".", "a.json", "a/../b", "%2F", "a\\b", "a?b#c", "a:b"]:
+        specials += [x, enc(x), enc(enc(x)), enc(x, lower=True)]
+    for x in dict.fromkeys(specials):
+        cases.append({"name": x, "file": None, "deep": True})
+    for c in rnd.sample([c for c in cases if c["file"] is None and not c.get("deep")], 30 if tier == "quick" else 400):
+        c["deep"] = True
     cp = os.path.join(w, "cases.ndjson")
     write_ndjson(cp, cases)
     out = os.path.join(w, "out.ndjson")
@@ -91,7 +141,7 @@ def run(tier, seed):
                 "editor_output": r["editor"][1]["list"]} for r in deep[len(deep) // 2: len(deep) // 2 + 3]]
     cov = {"states": g.distinct, "transitions": g.generated, "traces_validated_against_impl": stats["evaluations"],
            "samples": samples, "evaluations": stats["evaluations"], "distinct_nontrivial": len(stats["nontrivial"]),
-           "rule": "role names = every string up to length MaxLen over {a F 2 / \\ . % ? # : space U+0001 U+00E9} enumerated by Names.tla (with the file name Names.tla derives) plus random names up to length 64 incl. '..', '%2F', '.json'; all go through DelegatedTargets::filename and the collision check; names up to length 2 (thorough: 3) additionally through load() with a datastore, cache() and RepositoryEditor sign+write, with both consistent_snapshot settings; non-trivial = the name contains a character that must be encoded or a dot",
+           "rule": "role names = every string up to length MaxLen over {a F 2 / \\ . % ? # : space U+0001 U+00E9} enumerated by Names.tla (with the file name Names.tla derives) plus random names up to length 64 incl. '..', '%2F', '.json'; all go through DelegatedTargets::filename and the collision check; names up to length 2 (thorough: 3), 14 names with their percent-encoded, doubly encoded and lower-case-hex spellings, and a sample of the random names additionally through load() with a datastore, cache() and RepositoryEditor sign+write, with both consistent_snapshot settings, where injectivity is checked per place (URL requested by load / by cache, datastore file, cache file, editor file); non-trivial = the name contains a character that must be encoded or a dot",
            "names_through_all_paths": len(deep), "exhaustive": True}
     return v.finish("model_checking", cov, ["TLC enumerates names and transcribes the percent-encoding; injectivity is checked over all names of one run (distinct names, distinct files)",
                                             "the reserved names targets/snapshot/timestamp/root are the same string as a delegated role of that name and are outside 'two different role names'"])
